@@ -17,6 +17,8 @@ package pgo
 //@   ensures [C10] the-import-guards-are-the-imports-of-the-text-as-the-go-parser-reads-it: err == nil ==> file.Imports == parsedImports
 //@   ensures [C10] the-package-guard-is-the-package-clause-unless-it-was-supplied-by-the-augmentation: err == nil ==> file.Package == "" || file.Package == parsedPackage
 //@   ensures [C01,C10] a-package-clause-written-in-the-patch-is-always-the-guard: err == nil ==> file.Package == ite(len(ret("pgo/augment.Augment", 0, 1)) > 0 && ret("pgo/augment.Augment", 0, 1)[0].typ == dyn("*github.com/uber-go/gopatch/internal/pgo/augment.FakePackage"), "", parsedPackage)
+//@   at call pgo.augmentAST assert [C08] a-block-handed-on-has-statements: arg1.typ == dyn("*go/ast.BlockStmt") ==> arg1.val != nil && len(as("*go/ast.BlockStmt", arg1.val).List) > 0
+//@   ensures [C08] a-side-that-is-a-list-of-statements-has-statements: err == nil && file.Node.typ == dyn("*github.com/uber-go/gopatch/internal/pgo.StmtList") ==> file.Node.val != nil && len(as("*github.com/uber-go/gopatch/internal/pgo.StmtList", file.Node.val).List) > 0
 //@   ensures [C17] pattern-comments-are-the-comments-of-the-text: err == nil ==> file.Comments == parsedComments
 //@   ensures err == nil ==> file != nil && fresh(file)
 //@   assigns group(ast), group(augs), parsedImports, parsedPackage, parsedComments, allof("E.pgo_augment_PosAdjustment"), allof("E.parse_section_LinePos"), scanLeft, scanEnd, scanSize, scanFile, lastTok, tokAfterDots, sameLineAfterDots, outs
@@ -25,9 +27,11 @@ package pgo
 
 // Mapping the elisions of the patch back into the parsed tree (ast traversal; summarised).
 //@ func augmentAST(file, n, augs, adj) (res, err)
-//@   trusted replaces the placeholders the augmentation put into the text by pgo.Dots nodes (astutil.Apply traversal): summarised
+//@   trusted replaces the placeholders the augmentation put into the text by pgo.Dots nodes (astutil.Apply traversal): summarised; nodes are replaced one for one, so a block that is the root stays the root and keeps its number of statements
 //@   assigns group(ast)
 //@   ensures err == nil ==> res != nil
+//@   ensures err == nil && n.typ == dyn("*go/ast.BlockStmt") ==> res == n && len(as("*go/ast.BlockStmt", n.val).List) == old(len(as("*go/ast.BlockStmt", n.val).List))
+//@   ensures err == nil && n.typ != dyn("*go/ast.BlockStmt") ==> res.typ != dyn("*go/ast.BlockStmt")
 
 //@ func (a *posAdjuster) Position(pos) (p)
 //@   requires a.Fset != nil && a.File != nil
@@ -97,3 +101,23 @@ package pgo
 //@ func (a byOffset) Swap(i, j)
 //@   requires 0 <= i && i < len(a) && 0 <= j && j < len(a)
 //@   assigns elems(a)
+
+// A list of statements tells where it is by its first and its last statement (go/ast style): it must have one.
+//@ func (l *StmtList) Pos() (p)
+//@   requires [C08] a-statement-list-asked-where-it-is-has-statements: l != nil && len(l.List) > 0
+//@   unfold-post nodePos(boxed(l)) == p
+//@   requires typing: l.List[0] != nil
+//@   assigns nothing
+//@ func (l *StmtList) End() (p)
+//@   requires [C08] a-statement-list-asked-where-it-ends-has-statements: l != nil && len(l.List) > 0
+//@   requires typing: l.List[len(l.List) - 1] != nil
+//@   assigns nothing
+
+// Asking a pattern where it is: a statement list answers by its first statement.
+//@ iface Node.Pos() (p)
+//@   ensures p == nodePos(self)
+//@   requires [C08] a-statement-list-asked-where-it-is-has-statements: self.typ == dyn("*github.com/uber-go/gopatch/internal/pgo.StmtList") ==> self.val != nil && len(as("*github.com/uber-go/gopatch/internal/pgo.StmtList", self.val).List) > 0
+//@   assigns nothing
+//@ iface Node.End() (p)
+//@   requires [C08] a-statement-list-asked-where-it-ends-has-statements: self.typ == dyn("*github.com/uber-go/gopatch/internal/pgo.StmtList") ==> self.val != nil && len(as("*github.com/uber-go/gopatch/internal/pgo.StmtList", self.val).List) > 0
+//@   assigns nothing
